@@ -302,7 +302,8 @@ class Reader(object):
                 raise RefReject("syntax:dangling", "name expected after '::'")
             nxt = self.adv()[1]
             if scope is None or nxt not in scope:
-                raise RefReject("semantic:lookup", "'%s' is not a member of '%s'" % (nxt, "::".join(parts)))
+                # qualified lookup does not fall back to enclosing scopes: a compiler rejects the name outright
+                raise RefReject("semantic:member", "'%s' is not a member of '%s'" % (nxt, "::".join(parts)))
             parts.append(nxt)
             scope = None
         q = "::".join(parts)
